@@ -223,6 +223,7 @@ class Inst:
     def __init__(self, formulas, rounds=3, use_idx=False, must_contain=None):
         self.rounds = rounds
         self.use_idx = use_idx
+        self.small = None
         self.must_contain = must_contain      # names of the goal's skolem constants: only candidate terms mentioning one of them (goal-directed mode)
         self._mc = {}
         self.ground = []
@@ -583,7 +584,72 @@ class Inst:
             m = s.model() if r == z3.sat else None
         except Exception:
             m = None
+        self.small = None
+        if m is not None:
+            try:
+                self.small = small_model(s, forms + list(instances.values()))
+            except Exception:
+                self.small = None
         return ('sat' if r == z3.sat else 'unknown'), m
+
+
+def small_model(s, forms):
+    """A candidate counter-model with SHORT lists (every list length <= 6, small values preferred), written out as plain data:
+    {'arrays': {base: [ints]}, 'ints': {base: int}, 'bools': {base: bool}} keyed by the program-variable base names (x.len!3 -> 'x').
+    Only a candidate: it satisfies the instantiated hypotheses, not necessarily the quantified ones; it is replayed on the real code."""
+    lens, arrs, ints, bools = {}, {}, {}, {}
+    for f in forms:
+        for t in subterms(f, lambda x: z3.is_const(x) and x.decl().kind() == z3.Z3_OP_UNINTERPRETED, under_q=True):
+            nm = t.decl().name()
+            m1 = _LEN.match(nm)
+            if m1 and z3.is_int(t):
+                lens[(m1.group(1), int(m1.group(2)))] = t
+            m2 = _LEAF.match(nm)
+            if m2 and z3.is_array(t) and m2.group(2) == '0':
+                arrs[(m2.group(1), int(m2.group(3)))] = t
+            m3 = _re.match(r'^([A-Za-z_][\w\.]*)!(\d+)$', nm)
+            if m3 and not m1 and not m2 and '.' not in m3.group(1):
+                if z3.is_int(t):
+                    ints[m3.group(1)] = t
+                elif z3.is_bool(t):
+                    bools[m3.group(1)] = t
+    s.push()
+    try:
+        s.set('timeout', 3000)
+        for t in lens.values():
+            s.add(t <= 6)
+        for t in ints.values():
+            s.add(t >= -8, t <= 40)
+        if s.check() != z3.sat:
+            s.pop()
+            s.push()
+            for t in lens.values():
+                s.add(t <= 6)
+            if s.check() != z3.sat:
+                return None
+        m = s.model()
+        out = {'arrays': {}, 'ints': {}, 'bools': {}}
+        for (base, k), t in lens.items():
+            a = arrs.get((base, k + 1))
+            n = m.eval(t, model_completion=True)
+            if a is None or not z3.is_int_value(n):
+                continue
+            n = n.as_long()
+            if n < 0 or n > 6 or a.sort().range() != z3.IntSort():
+                continue
+            vals = [m.eval(a[i], model_completion=True) for i in range(n)]
+            if all(z3.is_int_value(v) for v in vals):
+                out['arrays'].setdefault(base, [v.as_long() for v in vals])
+        for base, t in ints.items():
+            v = m.eval(t, model_completion=True)
+            if z3.is_int_value(v):
+                out['ints'].setdefault(base, v.as_long())
+        for base, t in bools.items():
+            v = m.eval(t, model_completion=True)
+            out['bools'].setdefault(base, z3.is_true(v))
+        return out
+    finally:
+        s.pop()
 
 
 def nnf_skolem(formulas):
@@ -757,8 +823,17 @@ def _prove(hyps, goal, timeout_ms=10000, rounds=5, want_model=False, fallbacks=T
         s.add(forms)
         r = s.check()
         st = {'unsat': 'proved', 'sat': 'failed'}.get(str(r), 'unknown')
-        return {'status': st, 'backend': 'z3-qf', 'secs': time.time() - t0, 'n_inst': 0,
-                'model': str(s.model()) if r == z3.sat else None}
+        mtxt = None
+        if r == z3.sat:
+            mtxt = str(s.model())
+            try:
+                sm = small_model(s, forms)
+                if sm:
+                    import json as _json
+                    mtxt = mtxt[:4000] + '\n#PYVC-SMALL ' + _json.dumps(sm)
+            except Exception:
+                pass
+        return {'status': st, 'backend': 'z3-qf', 'secs': time.time() - t0, 'n_inst': 0, 'model': mtxt}
     model = None
     inst_verdict = None
     try:
@@ -771,6 +846,9 @@ def _prove(hyps, goal, timeout_ms=10000, rounds=5, want_model=False, fallbacks=T
         inst_verdict = r
         if m is not None:
             model = str(m)
+            if getattr(inst, 'small', None):
+                import json as _json
+                model = model[:4000] + '\n#PYVC-SMALL ' + _json.dumps(inst.small)
     except Exception as e:  # normalisation outside the fragment: fall through to the native engines
         n_inst = -1
         model = 'instantiation-not-applicable: %s' % e
